@@ -49,28 +49,29 @@ def showReply : Reply → String
   | .error w => "error:" ++ w
   | .exception => "exception"
 
-def out (r : Reply × Cbs) : Cbs × String :=
-  (r.2, showReply r.1 ++ "\t" ++ encList (r.2.map (·.name)) ++ "\t" ++ encList (answered r.2))
+def out (r : Reply × World) : World × String :=
+  (r.2, showReply r.1 ++ "\t" ++ encList ((r.2.view 0).map (·.name)) ++ "\t" ++
+    encList ((r.2.view 1).map (·.name)) ++ "\t" ++ encList (answered (r.2.view 0)))
 
-def stepD (cbs : Cbs) : List String → Cbs × String
+def stepD (w : World) : List String → World × String
   | ["reset", ps] =>
-    if ps = "-" then ([], "ok") else
+    if ps = "-" then ({ heap := [[]], ref := [0, 0] }, "ok") else
     match (ps.splitOn ",").mapM decPlugin with
-    | some l => (l, "ok")
-    | none => (cbs, "bad-op")
-  | ["load", n, av, f, hint] =>
-    match dec n, decOptPlugin av, decFaults f, decList hint with
-    | some n, some av, some f, some h => out (load (ordOf h) cbs n av f)
-    | _, _, _, _ => (cbs, "bad-op")
-  | ["unload", n, f] =>
-    match dec n, decFaults f with
-    | some n, some f => out (unload cbs n f)
-    | _, _ => (cbs, "bad-op")
-  | ["reload", n, av, f, hint] =>
-    match dec n, decOptPlugin av, decFaults f, decList hint with
-    | some n, some av, some f, some h => out (reload (ordOf h) cbs n av f)
-    | _, _, _, _ => (cbs, "bad-op")
-  | _ => (cbs, "bad-op")
+    | some l => ({ heap := [l], ref := [0, 0] }, "ok")
+    | none => (w, "bad-op")
+  | ["load", i, n, av, f, hint] =>
+    match i.toNat?, dec n, decOptPlugin av, decFaults f, decList hint with
+    | some i, some n, some av, some f, some h => out (execOn (ordOf h) w i (.load n av f))
+    | _, _, _, _, _ => (w, "bad-op")
+  | ["unload", i, n, f] =>
+    match i.toNat?, dec n, decFaults f with
+    | some i, some n, some f => out (execOn (ordOf []) w i (.unload n f))
+    | _, _, _ => (w, "bad-op")
+  | ["reload", i, n, av, f, hint] =>
+    match i.toNat?, dec n, decOptPlugin av, decFaults f, decList hint with
+    | some i, some n, some av, some f, some h => out (execOn (ordOf h) w i (.reload n av f))
+    | _, _, _, _, _ => (w, "bad-op")
+  | _ => (w, "bad-op")
 
-def handler : Driver.Handler := { σ := Cbs, init := [], step := stepD }
+def handler : Driver.Handler := { σ := World, init := { heap := [[]], ref := [0, 0] }, step := stepD }
 end C20
